@@ -113,8 +113,13 @@ def _is_bool_lit(p, v=None):
     return p.get("k") == "Lit" and p["e"].get("lit") == "bool" and (v is None or bool(p["e"]["v"]) == v)
 
 
+_GENERATED_BODY = [False]
+
+
 def spell(n):
     k = n.get("k")
+    if _GENERATED_BODY[0]:
+        return n
     if k == "Match" and n.get("src") == "Normal" and (tir.strip(n["scrut"]).get("ty") == "bool" or n["scrut"].get("ty") == "bool") and len(n["arms"]) == 2 and not any(a.get("guard") for a in n["arms"]):
         a0, a1 = n["arms"]
         t = f = None
@@ -289,6 +294,21 @@ def spell(n):
                     cond = {"k": "MethodCall", "ty": "bool", "sp": n.get("sp"), "method": "map_or", "path": "std::option::Option::<T>::map_or", "resolved": None, "local": False, "gargs": [],
                             "recv": n["scrut"], "args": [{"k": "Lit", "lit": "bool", "v": False, "ty": "bool", "sp": n.get("sp")}, cl], "canon": "flag-pattern"}
                     return {"k": "If", "ty": n.get("ty"), "sp": n.get("sp"), "cond": cond, "then": _as_block(n["arms"][0]["body"]), "else": _as_block(n["arms"][1]["body"]), "canon": "flag-pattern"}
+    if k == "Match" and n.get("src") == "Normal" and len(n.get("arms", [])) == 2 and n["arms"][0].get("guard") is not None and not n["arms"][1].get("guard") \
+            and n["arms"][1]["pat"].get("k") == "Wild" and n.get("ty") != "bool" and pure_expr(_unblock_simple(n["arms"][1]["body"])) \
+            and not _contains(n["arms"][0]["guard"], ("Ret", "Try", "Break", "Continue")):
+        # `match opt { Some(P) if G => A, _ => B }` with a pure, duplicable B is `match opt { Some(P) => if G { A } else { B }, _ => B }`
+        a0, a1 = n["arms"]
+        p = a0["pat"]
+        while p.get("k") == "Ref":
+            p = p["pat"]
+        if p.get("k") == "TupleStruct" and (p.get("path") or "").endswith("::Some") and len(p.get("pats", [])) == 1 and p["pats"][0].get("k") == "Bind" \
+                and any(x.get("k") == "Path" and x.get("id") == p["pats"][0].get("id") for x in tir.walk(a0["body"])):
+            inner = {"k": "If", "ty": n.get("ty"), "sp": a0["guard"].get("sp"), "cond": a0["guard"], "then": _as_block(a0["body"]), "else": _as_block(copy.deepcopy(a1["body"])), "canon": "guard-arm"}
+            o = dict(n)
+            o["arms"] = [dict(a0, guard=None, body=inner), a1]
+            o["canon"] = "guard-arm"
+            return spell(o)
     if k == "Match" and n.get("src") == "Normal" and len(n.get("arms", [])) == 2 and n["arms"][0].get("guard") is not None and not n["arms"][1].get("guard") \
             and n["arms"][1]["pat"].get("k") == "Wild" and n.get("ty") != "bool":
         # `match opt { Some(P) if G => A, _ => B }` with A not using P's bindings is `if opt.map_or(false, |P| G) { A } else { B }`
@@ -468,7 +488,98 @@ def spell(n):
             if ln.get("resolved"):
                 ln["resolved"] = ln["resolved"].rsplit("::", 1)[0] + "::len"
             return {"k": "Binary", "op": "Gt", "ty": "bool", "sp": n.get("sp"), "l": ln, "r": {"k": "Lit", "lit": "int", "v": 0, "ty": "usize", "sp": n.get("sp")}, "overloaded": False, "canon": "is_empty"}
+        # negation normal form over integer / bool comparisons: `!(a == b)` -> `a != b`, `!(a < b)` -> `a >= b`, `!!x` -> `x`,
+        # `!(a && b)` -> `!a || !b` (operands keep their order, so short-circuit evaluation is unchanged)
+        if e.get("k") == "Unary" and e.get("op") == "Not" and e.get("ty") == "bool":
+            return e["e"]
+        if e.get("k") == "Binary" and not e.get("overloaded") and e.get("op") in ("Eq", "Ne", "Lt", "Le", "Gt", "Ge"):
+            lt = tir.strip(e["l"]).get("ty") or ""
+            if lt.lstrip("&") in INT_RANGE or lt.lstrip("&") in ("bool", "char"):
+                o = dict(e)
+                o["op"] = {"Eq": "Ne", "Ne": "Eq", "Lt": "Ge", "Ge": "Lt", "Gt": "Le", "Le": "Gt"}[e["op"]]
+                o["canon"] = "not-cmp"
+                return o
+        if e.get("k") == "Binary" and not e.get("overloaded") and e.get("op") in ("And", "Or"):
+            def neg(x):
+                return spell({"k": "Unary", "op": "Not", "ty": "bool", "sp": x.get("sp"), "e": x, "canon": "de-morgan"})
+            o = dict(e)
+            o["op"] = "Or" if e["op"] == "And" else "And"
+            o["l"], o["r"] = neg(e["l"]), neg(e["r"])
+            o["canon"] = "de-morgan"
+            return o
+    if k == "Binary" and n.get("op") in ("Lt", "Le", "Gt", "Ge") and not n.get("overloaded"):
+        # one orientation for integer comparisons: a literal stays on the right (`x > 0`); otherwise `a > b` is `b < a`, `a >= b` is `b <= a`
+        l, r = tir.strip(n["l"]), tir.strip(n["r"])
+        lt_ = (l.get("ty") or "").lstrip("&")
+        if lt_ in INT_RANGE and pure_expr(n["l"]) and pure_expr(n["r"]):
+            l_lit, r_lit = l.get("k") == "Lit", r.get("k") == "Lit"
+            flip = {"Lt": "Gt", "Gt": "Lt", "Le": "Ge", "Ge": "Le"}
+            if (l_lit and not r_lit) or (n["op"] in ("Gt", "Ge") and not r_lit and not l_lit):
+                o = dict(n)
+                o["l"], o["r"], o["op"] = n["r"], n["l"], flip[n["op"]]
+                o["canon"] = "cmp-orientation"
+                return o
+    if k == "If" and n.get("else") is not None and n["else"].get("k") != "If" and n["cond"].get("k") == "Binary" and n["cond"].get("op") == "Or":
+        # `if a != b || c != d { X } else { Y }` (every atom a negative comparison) is `if a == b && c == d { Y } else { X }`
+        atoms = []
+        work = [n["cond"]]
+        okp = True
+        while work:
+            c = work.pop()
+            cs = tir.strip(c)
+            if cs.get("k") == "Binary" and cs.get("op") == "Or" and not cs.get("overloaded"):
+                work += [cs["r"], cs["l"]]
+            elif cs.get("k") == "Binary" and cs.get("op") == "Ne" and not cs.get("overloaded") and (tir.strip(cs["l"]).get("ty") or "").lstrip("&") in INT_RANGE:
+                atoms.append(cs)
+            else:
+                okp = False
+        if okp and len(atoms) >= 2:
+            pos = None
+            for a_ in atoms:
+                e_ = dict(a_)
+                e_["op"] = "Eq"
+                e_["canon"] = "polarity"
+                pos = e_ if pos is None else {"k": "Binary", "op": "And", "ty": "bool", "sp": n["cond"].get("sp"), "l": pos, "r": e_, "overloaded": False, "canon": "polarity"}
+            o = dict(n)
+            o["cond"] = pos
+            o["then"], o["else"] = _as_block(n["else"]), _as_block(n["then"])
+            o["canon"] = "polarity"
+            return o
+    if k == "Binary" and n.get("op") in ("Eq", "Ne") and not n.get("overloaded"):
+        # `0 == x` -> `x == 0` (a literal on the left of an integer equality)
+        l, r = tir.strip(n["l"]), tir.strip(n["r"])
+        if l.get("k") == "Lit" and l.get("lit") == "int" and r.get("k") != "Lit" and (r.get("ty") or "").lstrip("&") in INT_RANGE:
+            o = dict(n)
+            o["l"], o["r"] = n["r"], n["l"]
+            o["canon"] = "lit-right"
+            return o
+    if k == "If" and n.get("else") is not None and n["cond"].get("k") == "Unary" and n["cond"].get("op") == "Not" and n["cond"].get("ty") == "bool" and n["else"].get("k") != "If":
+        # `if !c { A } else { B }` -> `if c { B } else { A }`
+        o = dict(n)
+        o["cond"] = n["cond"]["e"]
+        o["then"], o["else"] = _as_block(n["else"]), _as_block(n["then"])
+        o["canon"] = "if-not"
+        return o
+    if k == "MethodCall" and n.get("method") == "into" and (n.get("path") or "") == "std::convert::Into::into" and not n.get("args") \
+            and (n.get("ty") or "").startswith("std::option::Option<") and (n.get("ty") or "")[len("std::option::Option<"):-1] == (n["recv"].get("ty") or "\0"):
+        # `x.into()` into an Option<T> from a T is `Some(x)` (impl<T> From<T> for Option<T>)
+        return {"k": "Call", "ty": n.get("ty"), "sp": n.get("sp"), "res": "def", "dk": "Ctor(Variant, Fn)", "path": "std::prelude::v1::Some", "local": False, "args": [n["recv"]], "canon": "into-some"}
+    if k == "MethodCall" and n.get("method") == "collect" and not n.get("args") and (n.get("ty") or "").startswith("std::vec::Vec<"):
+        # `std::iter::repeat(x).take(n).collect::<Vec<_>>()` with a literal x is `vec![x; n]`
+        t_ = tir.strip(n["recv"])
+        if t_.get("k") == "MethodCall" and t_.get("method") == "take" and len(t_.get("args", [])) == 1:
+            rp = tir.strip(t_["recv"])
+            if rp.get("k") == "Call" and (rp.get("path") or "").endswith("iter::repeat") and len(rp.get("args", [])) == 1 and tir.strip(rp["args"][0]).get("k") == "Lit":
+                return {"k": "Call", "ty": n.get("ty"), "sp": n.get("sp"), "res": "def", "dk": "Fn", "path": "std::vec::from_elem", "local": False, "mac": ["vec"],
+                        "args": [rp["args"][0], t_["args"][0]], "canon": "repeat-take"}
     return n
+
+
+def _unblock_simple(b):
+    b = tir.strip(b)
+    while b.get("k") == "Block" and not b.get("stmts") and b.get("tail") is not None:
+        b = tir.strip(b["tail"])
+    return b
 
 
 def _as_block(e):
@@ -1248,6 +1359,13 @@ def align_and_inline(doc, anchors):
                 if pairs is None:
                     break
             matched = set(i for i, _ in pairs)
+            # a binding that kept its pinned name and type but was declared in another order (independent lets reordered) is
+            # not an extra binding
+            left_w = [(w_[0], w_[1]) for j_, w_ in enumerate(want) if j_ not in set(j for _, j in pairs)]
+            for i_ in range(len(pats)):
+                if i_ not in matched and (pats[i_].get("name"), pats[i_].get("ty")) in left_w:
+                    left_w.remove((pats[i_].get("name"), pats[i_].get("ty")))
+                    matched.add(i_)
             extra = [pats[i] for i in range(len(pats)) if i not in matched]
             if not extra:
                 break
@@ -2185,7 +2303,10 @@ def canonicalise(doc):
         doc["_loop_forms"] = n_loops
     for b in doc["bodies"]:
         if b.get("tir"):
+            # derive-generated bodies (serde, num_enum) are never restyled by hand and are matched as generated: leave their spelling
+            _GENERATED_BODY[0] = "_serde" in b["path"] or "::_::" in b["path"] or "num_enum" in b["path"]
             b["tir"]["value"] = rewrite(b["tir"]["value"], spell)
+    _GENERATED_BODY[0] = False
     # closures produced by the O step can carry a struct pattern as their parameter (`Some(End { bytes, .. }) => ..`)
     for b in doc["bodies"]:
         if b.get("tir") and b["kind"] in ("Fn", "AssocFn") and "_serde" not in b["path"] and "num_enum" not in b["path"] and "::_::" not in b["path"]:
